@@ -789,9 +789,41 @@ pub fn run(cfg: &Cfg, rep: &mut Report) -> PropMeta {
         let parts = parts_for(p.logn).min(1 << p.logn);
         for part in 0..parts { work.push(Work { pair: i, part, parts }); }
     }
+    // Large degrees, sampled instead of swept: for N above the swept range up to the library's maximum 2^17, a few moduli
+    // per degree; part 0 (root and table checks, one dense vector against the O(N^2) definition with its round trip) plus
+    // randomly chosen parts of 16 unit vectors each (every output of every transform of those columns is compared) and
+    // the shifts that fall into those parts. Blocked / tiled transform code only differs from the plain one up there.
+    let mut pairs = pairs;
+    let swept = pairs.len();
+    {
+        let mut lrng = Rng::derive(cfg.seed, 0xC09, 0x1a46e);
+        let (lo, hi) = (cfg.pick(12usize, 14usize), cfg.pick(15usize, 17usize));
+        for logn in lo..=hi {
+            let m = 2u64 << logn;
+            let bit_choices: Vec<usize> = if cfg.quick() { vec![*lrng.pick(&[30usize, 40, 50]), *lrng.pick(&[60usize, 61])] } else { vec![25, 40, 50, 60, 61] };
+            for bits in bit_choices {
+                // a random friendly prime of this size (reference enumeration from a random start)
+                let tlo = (((1u64 << (bits - 1)) - 1 + m - 1) / m).max(1); let thi = ((1u64 << bits) - 2) / m;
+                if thi < tlo { continue; }
+                let cnt = thi - tlo + 1; let start = lrng.below(cnt);
+                for d in 0..cnt.min(20000) {
+                    let q = (tlo + (start + d) % cnt) * m + 1;
+                    if refm::bit_len(q) == bits && refm::is_prime(q) { pairs.push(Pair { logn, q, src: "large_degree_random_prime", sample: false }); break; }
+                }
+            }
+        }
+        let extra_parts = cfg.pick(3usize, 12usize);
+        for i in swept..pairs.len() {
+            let n = 1usize << pairs[i].logn; let parts = n / 16;
+            work.push(Work { pair: i, part: 0, parts });
+            let dense_part = 1 + lrng.usize_below(13); // one of the other dense jobs (lazy forms, inverse, products)
+            work.push(Work { pair: i, part: dense_part, parts });
+            for _ in 0..extra_parts { work.push(Work { pair: i, part: 14 + lrng.usize_below(parts - 14), parts }); }
+        }
+    }
     // heaviest first (stable, deterministic): keeps the tail of the parallel run short
     work.sort_by_key(|w| std::cmp::Reverse(pairs[w.pair].logn));
-    rep.note(&format!("{} (N,q) pairs, {} cases; degrees 2..{}; N = 2^14..2^17 are not explored (time/memory)", pairs.len(), work.len(), 1u64 << cfg.pick(11, 13)));
+    rep.note(&format!("{} (N,q) pairs swept completely (degrees 2..{}), {} pairs at degrees {}..{} sampled; {} cases", swept, 1u64 << cfg.pick(11, 13), pairs.len() - swept, 1u64 << cfg.pick(12, 14), 1u64 << cfg.pick(15, 17), work.len()));
     rep.note("no prime = 1 mod 2N has 2 bits for any N >= 2 (smallest is q = 5 for N = 2), so modulus bit sizes start at 3");
 
     run_cases(cfg, G_PAIR, work.len() as u64, rep, |i, rng, rep| {
